@@ -55,17 +55,18 @@ def enum_pipes(tier, shard, nshards, seed):
                 for (qc, so, bu) in flags:
                     k += 1
                     if k % nshards == shard:
+                        # `deep` (combine / split of tensors on the pipe) for every pipe of one leg and a quarter of the pairs
                         yield {'mod': mod, 'legs': list(combo), 'qconj': qc, 'sort': so, 'bunch': bu,
-                               'deep': bool(n == 1 or tier == 'thorough' or (k // nshards) % 4 == 0)}
-        # three incoming legs: complete for thorough (legs with <= 2 blocks), stratified sample for quick
-        if tier == 'thorough':
+                               'deep': bool(n == 1 or (k // nshards) % 4 == 0)}
+        # three incoming legs: complete for thorough if that are < 10^6 pipes (no charges, Z2), else a sample of 4 * 10^5
+        if tier == 'thorough' and len(legs2) ** 3 * len(flags) < 10 ** 6:
             for combo in itertools.product(legs2, repeat=3):
                 for (qc, so, bu) in flags:
                     k += 1
                     if k % nshards == shard:
                         yield {'mod': mod, 'legs': list(combo), 'qconj': qc, 'sort': so, 'bunch': bu}
         else:
-            nsamp = 3000
+            nsamp = 3000 if tier == 'quick' else 400000
             idx = rng.integers(0, len(legs2), size=(nsamp, 3))
             fl = rng.integers(0, len(flags), size=nsamp)
             for row, f in zip(idx, fl):
